@@ -1108,6 +1108,9 @@ def r9_named_value(a, tier):
         rep.fail(wfn.qualname, 'define-defaults', f"for k:'t' [l+:'t'] x:'t' {{m+:'t'}} the model declares {mod_args} -> {res['model']} and the generated parser "
                  f'declares {gen_args} -> {res["generated"]} (AST._define interpreted); required on both sides {want_defaults}: a list name that receives '
                  f'nothing is [] in the model and must be [] in the generated parser', wfn.loc)
+    # (B2) what generated parsers bind is whatever last_node holds, None and falsy values included (shared with C01.R2)
+    from .c01 import binding_values
+    binding_values(a, rep, 'C02.R9')
     # (C) leaf primitives: returned value == last_node
     from ..modelinterp import Recorder as _Rec
     for pname in ('void', 'empty', 'dot', 'token', 'pattern'):
